@@ -41,9 +41,12 @@ R5 (added) word rendering: in every function that builds argv words (every `Comm
    (def-use taint from the token parameter / the `value=` of the returned CommandToken / `<token>.value`) is turned
    into text only by `_get_value_repr` (the renderer that prints floats like the reference runner): no `str()`,
    f-string field, `format`, `%`, `+` with a string or `sep.join` over raw values (error messages and logging are
-   exempt).  Positive side: `bind` glues `prefix` and `_get_value_repr(value)` for `separate: false`,
-   `_get_executable_command` renders the words with `_get_value_repr`, `_get_value_for_command` applies
-   `itemSeparator` to rendered items.
+   exempt).  A helper's parameter that every call site binds to text (`self.prefix`, a separator) or to the processor
+   itself is not a token value.  Positive side: `bind` glues `prefix` and `_get_value_repr(value)` for `separate: false`
+   -- in `bind` itself or in a helper of the module that `bind` hands the token value to (private method on `self`, or
+   module function receiving the prefix / the processor; resolved calls inlined two levels deep; a helper whose result
+   is discarded does not count), `_get_executable_command` renders the words with `_get_value_repr`,
+   `_get_value_for_command` applies `itemSeparator` to rendered items.
 
 Left out: nothing of DESIGN C30.R1/R2; `CommandTemplateMap.get_command` (the second half of S2) is in C25's
 scope (queue-manager renderers are not among C30's anchors).
@@ -1185,6 +1188,115 @@ def _render_seeds(p, f) -> set[str]:
     return seeds
 
 
+_GLUE_DEPTH = 2  # inlining bound of the prefix-glue recogniser (bind -> helper -> helper of the helper)
+
+
+def _call_bindings(h, call) -> dict:
+    """{parameter of h: argument expression of `call`}; the receiver of a bound method call (`self.<h>(...)`) is the
+    argument of the method's first parameter."""
+    params = list(h.params)
+    out = {}
+    bound_receiver = h.cls is not None and isinstance(call.func, ast.Attribute) and "staticmethod" not in [unparse(d) for d in h.decorators]
+    if bound_receiver and params and params[0] in ("self", "cls"):
+        out[params[0]] = call.func.value
+        params = params[1:]
+    for i, a in enumerate(call.args):
+        if isinstance(a, ast.Starred):
+            break
+        if i < len(params):
+            out[params[i]] = a
+    for k in call.keywords:
+        if k.arg:
+            out[k.arg] = k.value
+    return out
+
+
+def _module_helper(p, f, call, stop):
+    """The function of the CWL command module that `call` resolves to (None: not a single helper of the module)."""
+    qs = resolved(p, f, call)
+    if len(qs) != 1:
+        return None
+    h = p.functions.get(next(iter(qs)))
+    if h is None or h.qualname in stop or h.module.name != MOD:
+        return None
+    return h
+
+
+def _prefix_glue(p, f, tainted, stop, prefix_names=frozenset(), rendered_names=frozenset(), self_names=frozenset({"self"}), depth=0, seen=frozenset()):
+    """(reads of the binding prefix, text operations gluing the prefix and a `_get_value_repr(<token value>)` rendering)
+    in `f` and in the helpers of the module it hands the value to (resolved calls, inlined up to _GLUE_DEPTH levels).
+
+    In a helper the prefix is `<proc>.prefix`, where <proc> is the parameter the call binds to the processor (`self` of a
+    helper method called on `self`, or a parameter that receives `self`), or a parameter that the call binds to the
+    prefix; the token value is whatever parameter the call binds to a token-derived argument; a parameter bound to an
+    already rendered value counts as rendered.  A helper whose result is discarded contributes no glue."""
+
+    def is_prefix(n):
+        if isinstance(n, ast.Attribute):
+            return n.attr == "prefix" and isinstance(n.value, ast.Name) and n.value.id in self_names and isinstance(n.ctx, ast.Load)
+        return isinstance(n, ast.Name) and isinstance(n.ctx, ast.Load) and n.id in prefix_names
+
+    def renders_value(x):
+        return _is_repr_call(p, f, x) and bool(x.args) and bool(_raw_reads(p, f, x.args[0], tainted))
+
+    body = list(f.body_nodes())
+    reads = [n for n in body if is_prefix(n)]
+    # locals holding an already rendered value (`text = _get_value_repr(value)`)
+    rendered = set(rendered_names)
+    for n in body:
+        if isinstance(n, (ast.Assign, ast.AnnAssign, ast.NamedExpr)) and n.value is not None and renders_value(n.value):
+            for t in n.targets if isinstance(n, ast.Assign) else [n.target]:
+                if isinstance(t, ast.Name):
+                    rendered.add(t.id)
+    glue = []
+    for n in body:
+        is_text_op = (isinstance(n, ast.BinOp) and isinstance(n.op, ast.Add)) or isinstance(n, ast.JoinedStr) or (
+            isinstance(n, ast.Call) and isinstance(n.func, ast.Attribute) and n.func.attr in ("format", "join"))
+        if not is_text_op or not any(any(x is r for x in ast.walk(n)) for r in reads):
+            continue
+        if any(renders_value(x) for x in ast.walk(n)) or any(isinstance(x, ast.Name) and x.id in rendered for x in ast.walk(n)):
+            glue.append(n)
+    if depth >= _GLUE_DEPTH:
+        return reads, glue
+    for c in body:
+        if not isinstance(c, ast.Call):
+            continue
+        h = _module_helper(p, f, c, stop)
+        if h is None or h.qualname in seen or h is f:
+            continue
+        args = _call_bindings(h, c)
+        h_self = frozenset(prm for prm, a in args.items() if isinstance(a, ast.Name) and a.id in self_names)
+        h_prefix = frozenset(prm for prm, a in args.items() if is_prefix(a))
+        h_rendered = frozenset(prm for prm, a in args.items() if renders_value(a) or (isinstance(a, ast.Name) and a.id in rendered))
+        h_seeds = {prm for prm, a in args.items() if prm not in h_prefix and prm not in h_rendered and _raw_reads(p, f, a, tainted)}
+        h_reads, h_glue = _prefix_glue(p, h, _taint(p, h, h_seeds), stop, h_prefix, h_rendered, h_self, depth + 1, seen | {f.qualname})
+        reads.extend(h_reads)
+        if not isinstance(parent(c), ast.Expr):
+            glue.extend(h_glue)
+    return reads, glue
+
+
+def _non_value_params(p, scope, roots) -> dict[str, set[str]]:
+    """{helper qualname: parameters that every call site in `scope` binds to text (a `str` attribute / parameter /
+    literal of the caller) or to the processor itself (`self`)}: such a parameter is a prefix, a separator or the
+    receiver, not a token value."""
+    sites = {}
+    for f in scope:
+        for c in f.calls():
+            qs = resolved(p, f, c)
+            for q in qs:
+                h = p.functions.get(q)
+                if h is None or h in roots or h not in scope:
+                    continue
+                args = _call_bindings(h, c)
+                for prm in h.params:
+                    a = args.get(prm)
+                    ok = len(qs) == 1 and a is not None and (
+                        _texty(p, f, a) or (isinstance(a, ast.Name) and a.id == "self" and f.cls is not None and f.params[:1] == ["self"]))
+                    sites.setdefault(q, {}).setdefault(prm, []).append(ok)
+    return {q: {prm for prm, oks in per.items() if oks and all(oks)} for q, per in sites.items()}
+
+
 def r5(ctx):
     p = ctx.prog
     ctx.require(p.has(REPR), f"C30.R5: anchor {REPR} vanished")
@@ -1193,8 +1305,9 @@ def r5(ctx):
     ctx.require(len(binds) >= 3, f"C30.R5: only {len(binds)} concrete CommandTokenProcessor.bind overrides found")
     scope = _module_closure(p, [exe, *binds], stop={REPR})
     taints = {}
+    non_value = _non_value_params(p, scope, [exe, *binds])
     for f in scope:
-        tainted = _taint(p, f, _render_seeds(p, f))
+        tainted = _taint(p, f, _render_seeds(p, f) - non_value.get(f.qualname, set()))
         taints[f.qualname] = tainted
         bad = []
         first = None
@@ -1214,31 +1327,11 @@ def r5(ctx):
                + " -- floats are printed with Python's repr (1e-05, 30000000000.0) instead of the reference decimal rendering",
                witness=bad)
     # positive side
+    glue_stop = {b.qualname for b in binds} | {REPR, ESC}
     for f in binds:
-        prefix_reads = [n for n in f.body_nodes() if isinstance(n, ast.Attribute) and n.attr == "prefix" and isinstance(n.value, ast.Name) and n.value.id == "self"
-                        and isinstance(n.ctx, ast.Load)]
+        prefix_reads, glue = _prefix_glue(p, f, taints[f.qualname], glue_stop - {f.qualname})
         if not prefix_reads:
             continue
-        tainted = taints[f.qualname]
-
-        def _renders_value(x, f=f, tainted=tainted):
-            return _is_repr_call(p, f, x) and bool(x.args) and bool(_raw_reads(p, f, x.args[0], tainted))
-
-        # locals holding an already rendered value (`text = _get_value_repr(value)`)
-        rendered = set()
-        for n in f.body_nodes():
-            if isinstance(n, (ast.Assign, ast.AnnAssign, ast.NamedExpr)) and n.value is not None and _renders_value(n.value):
-                for t in n.targets if isinstance(n, ast.Assign) else [n.target]:
-                    if isinstance(t, ast.Name):
-                        rendered.add(t.id)
-        glue = []
-        for n in f.body_nodes():
-            is_text_op = (isinstance(n, ast.BinOp) and isinstance(n.op, ast.Add)) or isinstance(n, ast.JoinedStr) or (
-                isinstance(n, ast.Call) and isinstance(n.func, ast.Attribute) and n.func.attr in ("format", "join"))
-            if not is_text_op or not any(any(x is r for x in ast.walk(n)) for r in prefix_reads):
-                continue
-            if any(_renders_value(x) for x in ast.walk(n)) or any(isinstance(x, ast.Name) and x.id in rendered for x in ast.walk(n)):
-                glue.append(n)
         ctx.ob("R5", "bind glues prefix and the rendered value into one word (separate: false)", bool(glue), func=f, node=f.node, instance="render:prefix-glue",
                message=f"{f.qualname} reads self.prefix but never concatenates it with _get_value_repr(value): `separate: false` bindings no longer yield the single word <prefix><value>")
     words = [c for c in exe.body_nodes() if _is_repr_call(p, exe, c) and c.args and _raw_reads(p, exe, c.args[0], taints[exe.qualname])]
@@ -1267,6 +1360,75 @@ _GLUE = "value = [self.prefix + _get_value_repr(value)]"
 _SEP_JOIN = "item_separator.join([_get_value_repr(v) for v in value])"
 _WORDS = "[_get_value_repr(val) for val in t.value]"
 _ESC_STMT = "if not self.is_shell_command or self.shell_quote:\n                value = [_escape_value(v) for v in value]"
+
+
+def _deeper(text: str, n: int = 4) -> str:
+    """The same normalised text one nesting level deeper (function-level text -> class-level text)."""
+    return text.replace("\n", "\n" + " " * n)
+
+
+# the prefix-application chain of CWLCommandTokenProcessor.bind and the rest of the method (text relative to `def bind`)
+_PREFIX_CHAIN = (
+    "if isinstance(value, bool):\n"
+    "                value = [self.prefix] if value else value\n"
+    "            elif self.separate:\n"
+    "                if isinstance(value, MutableSequence):\n"
+    "                    value = [self.prefix] + list(value)\n"
+    "                else:\n"
+    "                    value = [self.prefix, value]\n"
+    "            elif isinstance(value, MutableSequence):\n"
+    "                value = [self.prefix, *value]\n"
+    "            else:\n"
+    "                " + _GLUE
+)
+_BIND_TAIL = (
+    "\n        if value is not None and (not isinstance(value, bool)):\n"
+    "            if not isinstance(value, MutableSequence):\n"
+    "                value = [value]\n"
+    "            " + _ESC_STMT + "\n"
+    "            if isinstance(self.position, str) and (not self.position.isnumeric()):\n"
+    "                position = utils.eval_expression(expression=self.position, context=options.context | cwl_utils.types.CWLParameterContext("
+    "self=get_token_value(token) if token else None), full_js=options.full_js, expression_lib=options.expression_lib)\n"
+    "                try:\n"
+    "                    position = int(position) if position is not None else 0\n"
+    "                except ValueError:\n"
+    "                    pass\n"
+    "            else:\n"
+    "                position = int(self.position)\n"
+    "            return CommandToken(name=self.name, position=position, value=value)\n"
+    "    return None"
+)
+
+
+def _prefix_helper(recv: str, prefix: str, separate: str, last: str, indent: str) -> str:
+    """Body of an extracted prefix helper: the chain of bind with every store turned into a return."""
+    lines = [
+        "if isinstance(value, bool):",
+        f"    return [{prefix}] if value else value",
+        f"elif {separate}:",
+        "    if isinstance(value, MutableSequence):",
+        f"        return [{prefix}] + list(value)",
+        "    else:",
+        f"        return [{prefix}, value]",
+        "elif isinstance(value, MutableSequence):",
+        f"    return [{prefix}, *value]",
+        "else:",
+        f"    return {last}",
+    ]
+    return "".join(f"{indent}{ln}\n" for ln in lines)
+
+
+def _prefix_method(last: str) -> tuple[str, str]:
+    """(old, new) on the class text: the chain becomes the private method `_add_prefix`, called at the same point."""
+    old = _deeper(_PREFIX_CHAIN + _BIND_TAIL)
+    new = _deeper("value = self._add_prefix(value)" + _BIND_TAIL) + "\n\n    def _add_prefix(self, value: Any) -> Any:\n" + _prefix_helper(
+        "self", "self.prefix", "self.separate", last, " " * 8).rstrip("\n")
+    return old, new
+
+
+_GLUED = "[self.prefix + _get_value_repr(value)]"
+_FN_BY_PREFIX = "def _add_prefix(prefix, separate, value):\n" + _prefix_helper("", "prefix", "separate", "[prefix + _get_value_repr(value)]", "    ")
+_FN_BY_PROC = "def _add_prefix(proc, value):\n" + _prefix_helper("", "proc.prefix", "proc.separate", "[proc.prefix + _get_value_repr(value)]", "    ")
 
 VARIANTS = [
     # ---- breaking
@@ -1344,6 +1506,15 @@ VARIANTS = [
     V("itemSeparator ignored", FILE, VFC, "return " + _SEP_JOIN, "return [_get_value_repr(v) for v in value]", "R5"),
     V("command words rendered with str()", FILE, EXE, _WORDS, "[str(val) for val in t.value]", "R5"),
     V("command words not rendered", FILE, EXE, _WORDS, "[val for val in t.value]", "R5"),
+    # the prefix chain extracted into a helper (shape of benign/B11-2) that no longer renders like the reference runner
+    V("prefix helper method glues with str()", FILE, PROC, *_prefix_method("[self.prefix + str(value)]"), "R5"),
+    V("prefix helper method glues with an f-string", FILE, PROC, *_prefix_method("[f'{self.prefix}{value}']"), "R5"),
+    V("prefix helper method ignores separate:false (two words)", FILE, PROC, *_prefix_method("[self.prefix, value]"), "R5"),
+    V("prefix helper function ignores separate:false (two words)", FILE, f"{PROC}.bind", _PREFIX_CHAIN, "value = _add_prefix(self.prefix, self.separate, value)", "R5",
+      append=_FN_BY_PREFIX.replace("[prefix + _get_value_repr(value)]", "[prefix, value]")),
+    V("prefix helper function called, result discarded", FILE, f"{PROC}.bind", _PREFIX_CHAIN, "_add_prefix(self.prefix, self.separate, value)", "R5", append=_FN_BY_PREFIX),
+    V("prefix helper function glues another processor attribute", FILE, f"{PROC}.bind", _PREFIX_CHAIN, "value = _add_prefix(self, value)", "R5",
+      append=_FN_BY_PROC.replace("[proc.prefix + _get_value_repr(value)]", "[proc.name + _get_value_repr(value)]")),
     # ---- benign
     V("benign: env defaults merged under the EnvVarRequirement entries", FILE, f"{CMD}.execute",
       "parsed_env = " + _ENV_COMP + "\n" + _ENV_DEFAULTS, "parsed_env = {'HOME': job.output_directory, 'TMPDIR': job.tmp_directory} | " + _ENV_COMP, None),
@@ -1359,6 +1530,13 @@ VARIANTS = [
     V("benign: prefix glued with an f-string over the renderer", FILE, f"{PROC}.bind", _GLUE, "value = [f'{self.prefix}{_get_value_repr(value)}']", None),
     V("benign: rendered value through a temporary", FILE, f"{PROC}.bind", _GLUE, "text = _get_value_repr(value)\n                value = [self.prefix + text]", None),
     V("benign: prefix glued with ''.join", FILE, f"{PROC}.bind", _GLUE, "value = [''.join([self.prefix, _get_value_repr(value)])]", None),
+    V("benign: prefix chain extracted into a private method (benign/B11-2)", FILE, PROC, *_prefix_method(_GLUED), None),
+    V("benign: prefix chain extracted into a module function taking prefix and separate", FILE, f"{PROC}.bind", _PREFIX_CHAIN,
+      "value = _add_prefix(self.prefix, self.separate, value)", None, append=_FN_BY_PREFIX),
+    V("benign: prefix chain extracted into a module function taking the processor", FILE, f"{PROC}.bind", _PREFIX_CHAIN,
+      "value = _add_prefix(self, value)", None, append=_FN_BY_PROC),
+    V("benign: only the glue extracted, value rendered by the caller", FILE, f"{PROC}.bind", _GLUE,
+      "value = [_glue(self.prefix, _get_value_repr(value))]", None, append="def _glue(prefix: str, text: str) -> str:\n    return prefix + text\n"),
     V("benign: value logged before gluing", FILE, f"{PROC}.bind", _GLUE, "logger.debug(f'binding {value} with prefix {self.prefix}')\n                " + _GLUE, None),
     V("benign: itemSeparator joins map(renderer)", FILE, VFC, _SEP_JOIN, "item_separator.join(map(_get_value_repr, value))", None),
     V("benign: itemSeparator joins a generator, variable renamed", FILE, VFC, _SEP_JOIN, "item_separator.join((_get_value_repr(item) for item in value))", None),
